@@ -513,7 +513,7 @@ pub fn check(tier: &str, seed: u64) -> i32 {
     exhaustive.extend(crongen::boundary_numerics());
     let (n_random, n_bases): (u64, u64) = match tier {
         "quick" => (2_000, 200),
-        _ => (20_000, 5_000),
+        _ => (100_000, 20_000),
     };
     let n_random = std::env::var("VERIF_C16_RANDOM").ok().and_then(|v| v.parse().ok()).unwrap_or(n_random);
     let n_bases = std::env::var("VERIF_C16_BASES").ok().and_then(|v| v.parse().ok()).unwrap_or(n_bases);
